@@ -222,6 +222,8 @@ def evOfWire (w : String) : Option XlsxCells.Ev :=
   | ["s", n, a] => (attrsOfWire a).map fun at_ => .start (nameOfWire n) at_
   | ["e", n] => some (.stop (nameOfWire n))
   | ["t", h] => (natsOfHex h).map .text
+  -- a CDATA section is character data for every loop of the reader (`Event::CData` is appended like `Event::Text`)
+  | ["c", h] => (natsOfHex h).map .text
   | _ => none
 
 def xfReply (ws : List String) : String :=
